@@ -212,6 +212,9 @@ def gen_simt(rng, nfiles):
     if rng.chance(1, 2):
         c['spurious_budget'] = rng.range(1, 5)
         c['spurious_permille'] = rng.range(5, 60)
+    if rng.chance(1, 3):
+        # hold back a thread at its first request of a mutex nobody requested before (lazily initialised shared state)
+        c['first_use_delay'] = rng.choice([15, 40, 120])
     if rng.chance(3, 10):
         c['starve_victim'] = rng.below(17)
         c['starve_from'] = rng.below(150)
